@@ -173,6 +173,9 @@ func stickyPaths(fn *ssa.Function, from, start *ssa.BasicBlock, tracked ssa.Valu
 		env    map[*ssa.Phi]vval
 		facts  map[vval]bool // true = nil
 		visits map[*ssa.BasicBlock]int
+		// retried: on this path a second call of the library function whose error is tracked has succeeded (its own error
+		// was tested to be nil): the value was obtained after all, returning nil is the point of the fallback
+		retried bool
 	}
 	clone := func(s *state) *state {
 		n := &state{ver: map[ssa.Value]int{}, env: map[*ssa.Phi]vval{}, facts: map[vval]bool{}, visits: map[*ssa.BasicBlock]int{}}
@@ -188,7 +191,23 @@ func stickyPaths(fn *ssa.Function, from, start *ssa.BasicBlock, tracked ssa.Valu
 		for k, v := range s.visits {
 			n.visits[k] = v
 		}
+		n.retried = s.retried
 		return n
+	}
+	// the library function whose error is tracked (nil when the error does not come straight from a call outside the repository)
+	var origin *ssa.Function
+	if ex, ok := tracked.(*ssa.Extract); ok {
+		if first, ok := ex.Tuple.(*ssa.Call); ok && first.Call.StaticCallee() != nil && !core.InRepo(first.Call.StaticCallee()) {
+			origin = first.Call.StaticCallee()
+		}
+	}
+	isRetryErr := func(v ssa.Value) bool {
+		ex, ok := v.(*ssa.Extract)
+		if !ok || origin == nil {
+			return false
+		}
+		call, ok := ex.Tuple.(*ssa.Call)
+		return ok && call.Call.StaticCallee() == origin && call != tracked.(*ssa.Extract).Tuple
 	}
 	resolve := func(s *state, x ssa.Value) vval {
 		if p, ok := x.(*ssa.Phi); ok {
@@ -253,6 +272,9 @@ func stickyPaths(fn *ssa.Function, from, start *ssa.BasicBlock, tracked ssa.Valu
 				if errIdx < len(x.Results) {
 					rv := resolve(s, x.Results[errIdx])
 					if k, ok := rv.v.(*ssa.Const); ok && k.IsNil() {
+						if s.retried {
+							return // the fallback call succeeded on this path
+						}
 						lost, detail = true, "a path reaches `return …, nil`"
 					} else if isNil, known := s.facts[rv]; known && isNil && rv != tv {
 						lost, detail = true, "a path returns a different error value that was tested to be nil"
@@ -285,6 +307,9 @@ func stickyPaths(fn *ssa.Function, from, start *ssa.BasicBlock, tracked ssa.Valu
 								continue // infeasible
 							}
 							ns.facts[ov] = isNil
+						}
+						if isNil && isRetryErr(operand) {
+							ns.retried = true
 						}
 					}
 					walk(ns, b, succ, depth+1)
